@@ -16,7 +16,7 @@ for sid in sorted(last):
         continue
     meta = json.load(open(mp))
     own = sid[:3]
-    rnd = {"": 1, "b": 2, "c": 3, "d": 4, "e": 5, "f": 6, "g": 7}[sid[3:]]
+    rnd = {"": 1, "b": 2, "c": 3, "d": 4, "e": 5, "f": 6, "g": 7, "h": 8}[sid[3:]]
     per_round.setdefault(rnd, [0, 0])[1] += 1
     caught = "; ".join("%s: %s" % (q, ", ".join(c["subchecks"][:2])) for q, c in r["checks"].items() if c["violation"])
     n = notes.get(sid, {})
